@@ -392,8 +392,13 @@ impl BinOp {
                     let sx = match self.op {
                         Operator::Div => false,
                         Operator::Minus => {
-                            a.type_name() != "string"
-                                && b.type_name() != "string"
+                            // With a string, `a - b` is `a-b`, but an
+                            // unevaluated operation is not a string.
+                            fn is_str(v: &css::Value) -> bool {
+                                v.type_name() == "string"
+                                    && !matches!(v, css::Value::BinOp(_))
+                            }
+                            !is_str(&a) && !is_str(&b)
                         }
                         _ => true,
                     };
